@@ -29,7 +29,18 @@ type bTreeContainers struct {
 func newBTreeContainers() *bTreeContainers {
 	return &bTreeContainers{
 		tree: treeNew(),
+		// use a definitely-invalid key, so that the zero value of the
+		// lookaside is not mistaken for "key 0 was looked up and is absent".
+		lastKey: ^uint64(0),
 	}
+}
+
+// invalidateLast forgets the most recently used container. It must be called
+// by anything that may add or replace a container in the tree without going
+// through Put.
+func (btc *bTreeContainers) invalidateLast() {
+	btc.lastKey = ^uint64(0)
+	btc.lastContainer = nil
 }
 
 func NewBTreeBitmap(a ...uint64) *Bitmap {
@@ -94,6 +105,7 @@ type updater struct {
 
 func (btc *bTreeContainers) PutContainerValues(key uint64, typ byte, n int, mapped bool) {
 	a := updater{key, int32(n), typ, mapped}
+	btc.invalidateLast()
 	btc.tree.Put(key, a.update)
 }
 
@@ -218,6 +230,7 @@ func (btc *bTreeContainers) Repair() {
 // (new-container, write). If write is true, the container is used to
 // replace the given container.
 func (btc *bTreeContainers) Update(key uint64, fn func(*Container, bool) (*Container, bool)) {
+	btc.invalidateLast()
 	btc.tree.Put(key, fn)
 }
 
@@ -225,6 +238,7 @@ func (btc *bTreeContainers) Update(key uint64, fn func(*Container, bool) (*Conta
 // (new-container, write). If write is true, the container is used to
 // replace the given container.
 func (btc *bTreeContainers) UpdateEvery(fn func(uint64, *Container, bool) (*Container, bool)) {
+	btc.invalidateLast()
 	e, _ := btc.tree.Seek(0)
 	// currently not handling the error from this, but in practice it has
 	// to be io.EOF.
